@@ -84,7 +84,7 @@ def run_case(case):
     src = case["src"]
     mods = case.get("modules")
     inp = dict(mods, **{"": src}) if mods else src
-    bases = case.get("bases", [{"inline_functions": True}, {"inline_functions": False}])
+    bases = case.get("bases") or [{"inline_functions": True}, {"inline_functions": False}]
     n_pairs = 0
     for b in bases:
         r1 = comp.compile_code(inp, comp.CompileOptions(**comp.opts(**b)))
@@ -130,7 +130,8 @@ def build_cases(tier):
         cases.append(dict(c, family=fam, variants=v4))
     for c in F.names_inline():
         fam = "W-F05b" if is_f05b(c["names"]) else c["family"]
-        cases.append(dict(c, family=fam, variants=v4))
+        vv = v4 if c["family"] != "NAMESINL-TERM" else [v for v in v4 if v["inline_functions"]]  # terminating main: nothing may be out of line (F-07)
+        cases.append(dict(c, family=fam, variants=vv, bases=[{"inline_functions": True}] if c["family"] == "NAMESINL-TERM" else None))
     trip = F.names_triples(step=1 if tier == "thorough" else 9)
     for c in trip:
         fam = "W-F05b" if is_f05b(c["names"]) else c["family"]
